@@ -232,6 +232,9 @@ func genChan(g *simrt.Rng, e *Env, nCli, maxMsg, maxSize int, ends []int) ChanPl
 			c.RecvCtxUs[side] = simrt.Pick(g, 1, 20, 300, 3000, 50000)
 		}
 		c.RecvPoll[side] = g.Bool(0.15)
+		if side == 0 && g.Bool(0.1) {
+			c.Unopened = 1 + g.IntN(3)
+		}
 		if g.Bool(0.08) {
 			c.SendCtx[side] = 1 + g.IntN(2)
 			c.SendCtxUs[side] = simrt.Pick(g, 1, 20, 300, 3000, 50000)
@@ -489,6 +492,7 @@ func runFlowX(t *testing.T, seed uint64, p *FlowPlan, o RunOpts, prop string, se
 	}
 	rep.count("probe:receives_repeated_after_own_deadline", int64(r.recvCtxExpired))
 	rep.count("probe:sends_repeated_after_own_deadline", int64(r.sendCtxExpired))
+	rep.count("probe:channels_freed_unopened", int64(r.unopened))
 	return rep
 }
 
